@@ -189,6 +189,8 @@ def op_line(op):
         return 'new'
     if k in ('add', 'addraw'):
         return '%s %d %s' % (k, op[1], op[2])
+    if k == 'addlines':
+        return 'addlines %d %s' % (op[1], ' '.join('| ' + l for l in op[2]))
     if k == 'remove':
         return 'remove %d %s' % (op[1], op[2])
     if k == 'query':
@@ -407,6 +409,23 @@ class History:
         self.chk.count('op', ('override' if over else 'add') + ('-raw' if raw else ''))
         self.after_mutation(i, flag, 'override' if over else 'add')
 
+    def do_addlines(self, i, lines):
+        """public add of a multi-line string (the form the Circuit constructor uses)"""
+        c = self.insts[i]
+        over = any(l.split()[0] in c._elements for l in lines)
+        try:
+            c.add('\n'.join(lines))
+            flag = 'ok'
+        except Exception as e:      # noqa
+            flag = 'raise'
+            self.chk.count('lcapy-error', 'add:' + type(e).__name__)
+        self.ops.append(('addlines', i, list(lines)))
+        if over and flag == 'ok' and self.taint[i] == 'clean':
+            self.taint[i] = 'override'
+        self.record_snaps()
+        self.chk.count('op', 'add-multiline')
+        self.after_mutation(i, flag, 'add-multiline')
+
     def do_remove(self, i, name):
         c = self.insts[i]
         known = name in c._elements
@@ -544,6 +563,14 @@ def gen_history(chk, h, rng, nops, heavy, deadline=None):
         if r < 0.20:
             kind = rng.choice('RRRCCLVIW' + ('O' if rng.random() < 0.5 else 'R'))
             h.do_add(i, rand_line(rng, fresh_name(h, i, kind), symbolic=(i == 1)))
+        elif r < 0.225:
+            lines = []
+            for _ in range(rng.randint(2, 3)):
+                kind = rng.choice('RRCLVI')
+                nm = fresh_name(h, i, kind)
+                h.counter[(i, nm)] = True
+                lines.append(rand_line(rng, nm, symbolic=(i == 1)))
+            h.do_addlines(i, lines)
         elif r < 0.27 and names:
             nm = rng.choice([n for n in names if n[0] in 'RCLVIW'] or names)
             if nm[0] in 'RCLVIWO' and 'anon' not in nm:
@@ -590,16 +617,25 @@ ILT_KW = [{}, {'causal': True}, {'causal': True, 'damped_sin': True}, {'causal':
           {'causal': False}, {'zero_initial_conditions': True}]
 
 
-def transform_case(chk, R, drv, rng, fixed=None):
+DEXPRS = ['Derivative(x(t),t)', 'Derivative(x(t),t,2)+3*x(t)', '2*Derivative(y(t),t,2)+Derivative(y(t),t)']
+
+
+def transform_case(chk, R, drv, rng, fixed=None, forward=False):
     """a transform through the process-wide memo table must equal the same transform on an empty one"""
     import lcapy
     from lcapy import expr
     import lcapy.laplace as lt
     import lcapy.inverse_laplace as ilt
-    if fixed is None and rng.random() < 0.5:
-        e, kw, name, tr = rng.choice(TEXPRS), {}, 'LaplaceTransformer', lt.laplace_transformer
+    if forward or (fixed is None and rng.random() < 0.5):
+        if fixed is not None:
+            e, kw = fixed
+        elif rng.random() < 0.4:
+            e, kw = rng.choice(DEXPRS), rng.choice([{}, {'zero_initial_conditions': True}, {'zero_initial_conditions': False}])
+        else:
+            e, kw = rng.choice(TEXPRS), {}
+        name, tr = 'LaplaceTransformer', lt.laplace_transformer
         def f():
-            return str(expr(e).laplace().sympy)
+            return str(expr(e).LT(**kw).sympy)
     else:
         e, kw = fixed if fixed is not None else (rng.choice(SEXPRS), rng.choice(ILT_KW))
         name, tr = 'InverseLaplaceTransformer', ilt.inverse_laplace_transformer
@@ -745,6 +781,8 @@ def run_script(h, script):
             h.do_add(st[1], st[2])
         elif st[0] == 'addraw':
             h.do_add(st[1], st[2], raw=True)
+        elif st[0] == 'addlines':
+            h.do_addlines(st[1], list(st[2]))
         elif st[0] == 'remove':
             h.do_remove(st[1], st[2])
         elif st[0] == 'query':
@@ -836,6 +874,8 @@ def run(chk, replay=None):
                         h.record_snaps()
                     elif o[0] in ('add', 'addraw'):
                         h.do_add(o[1], o[2], raw=(o[0] == 'addraw'))
+                    elif o[0] == 'addlines':
+                        h.do_addlines(o[1], o[2])
                     elif o[0] == 'remove':
                         h.do_remove(o[1], o[2])
                     elif o[0] == 'query':
@@ -873,6 +913,15 @@ def run(chk, replay=None):
     chk.coverage['histories'] = k + 1
 
     # ---- 5. transforms: every expression under every kwargs set, twice, in random order
+    import lcapy.laplace as _lt
+    for e in DEXPRS:
+        for order in (({}, {'zero_initial_conditions': True}, {'zero_initial_conditions': False}, {}),
+                      ({'zero_initial_conditions': True}, {}, {'zero_initial_conditions': False})):
+            _lt.laplace_transformer.clear_cache()          # public API; the sequence starts from an empty table
+            for kw in order:
+                k = transform_case(chk, R, drv, rng, fixed=(e, kw), forward=True)
+                if k:
+                    all_found.append(k)
     for e in SEXPRS:
         for kw in ({'causal': True, 'damped_sin': True}, {'causal': True}, {'causal': True, 'damped_sin': False}):
             k = transform_case(chk, R, drv, rng, fixed=(e, kw))
@@ -898,7 +947,8 @@ def run(chk, replay=None):
                 'node_delete_guarded': lambda k: k.get('after') == 'failed-remove',
                 'fresh_refinement_current': lambda k: k.get('kind') == 'stale-memo' or k.get('after') in ('override', 'failed-remove'),
                 'no_hash_order_iteration': lambda k: k.get('kind') == 'hash-seed',
-                'transform_keys_complete': lambda k: k.get('kind') == 'transform-cache'}
+                'transform_keys_complete': lambda k: k.get('kind') == 'transform-cache',
+                'add_multi_invalidates': lambda k: k.get('kind') == 'stale-memo'}
     unmatched = [k for k in all_found if common.match_finding(chk.findings, k) is None]
     for b in allb:
         thm = b.split(':')[-1]
